@@ -126,7 +126,10 @@ PDU* PDU::release_inner_pdu() {
 
 PDU::serialization_type PDU::serialize() {
     vector<uint8_t> buffer(size());
-    serialize(&buffer[0], static_cast<uint32_t>(buffer.size()));
+    // buffer[0] does not exist when there is nothing to serialize
+    if (!buffer.empty()) {
+        serialize(&buffer[0], static_cast<uint32_t>(buffer.size()));
+    }
     return buffer;
 }
 
